@@ -184,10 +184,6 @@ Percents     == {Level(m) : m \in PerMilles}
 \* of a percent: to 1 ulp), single precision when the level is a multiple of a half, the integer types when it is an integer
 LevelForms(m) == {"float", "npfloat64"} \cup (IF m % 5 = 0 THEN {"npfloat32"} ELSE {})
                  \cup (IF m % 10 = 0 THEN {"int", "npint64", "npint32"} ELSE {})
-CI(sorted, p) == LET lbq == RDiv(RSub(R(100), LevelRead(p)), R(2))
-                     lo  == Pct(sorted, lbq)
-                     hi  == Pct(sorted, RSub(R(100), lbq))
-                 IN [pct |-> p, lo |-> lo, hi |-> hi, width |-> RSub(hi, lo)]
 PmSeq  == SortSet(PerMilles)
 \* the same bounds in integer arithmetic over the common denominator CID (used to ORDER the intervals of different levels
 \* without cross-multiplying rationals: TLC's integers are 32 bit): level m per mille, n values: the lower percentile sits
@@ -197,6 +193,13 @@ PctNum(sorted, k) == LET n == Len(sorted)  lo == k \div CID  rem == k % CID
                      IN IF lo + 1 >= n THEN CID * sorted[n]
                         ELSE CID * sorted[lo + 1] + rem * (sorted[lo + 2] - sorted[lo + 1])
 CINum(sorted, m) == [lo |-> PctNum(sorted, (1000 - m) * (Len(sorted) - 1)), hi |-> PctNum(sorted, (1000 + m) * (Len(sorted) - 1))]
+\* a - b for rationals whose denominators divide D (no cross-multiplication)
+RSubCD(a, b, D) == Q(a[1] * (D \div a[2]) - b[1] * (D \div b[2]), D)
+\* the bounds by the percentile rule; the positions of both percentiles are multiples of 1 / CID, so are the bounds
+CI(sorted, p) == LET lbq == RDiv(RSub(R(100), LevelRead(p)), R(2))
+                     lo  == Pct(sorted, lbq)
+                     hi  == Pct(sorted, RSub(R(100), lbq))
+                 IN [pct |-> p, lo |-> lo, hi |-> hi, width |-> RSubCD(hi, lo, CID)]
 
 \* additional chains for R-hat: chain j (1..NChains) holds at coordinate pos, column id
 ChainVal(j, v, id) == v + j * (1 + ((id * id + j) % 5))
@@ -390,7 +393,7 @@ StepIndices ==
 LoMedHiAt(st) ==
     /\ RLe(Zero, st.var)
     /\ \A q \in 1..Len(st.ci) : /\ RLe(st.ci[q].lo, st.med) /\ RLe(st.med, st.ci[q].hi)
-                                /\ st.ci[q].width = RSub(st.ci[q].hi, st.ci[q].lo) /\ RLe(Zero, st.ci[q].width)
+                                /\ st.ci[q].width = RSubCD(st.ci[q].hi, st.ci[q].lo, CID * st.den) /\ RLe(Zero, st.ci[q].width)
 \* THE LEVEL LAW (every level of the cfg, whatever its size): the interval of level 0 is the median, the interval of level
 \* 100 is the range of the stored values, a larger level never gives a narrower interval - both bounds move strictly
 \* outwards as soon as the chain holds two values (the entries of a coordinate are distinct) - and the bounds are the
